@@ -25,16 +25,17 @@ type plCtx struct {
 }
 
 type plConn struct {
-	id      uint32
-	phase   int // 0 not connected, 1 added, 2 ready, 3 removed
-	inQuery bool
-	inOp    bool
-	query   string
-	pid     uint64
-	cur     *plCtx
-	user    string
-	host    string
-	sess    *sql.BaseSession
+	id        uint32
+	phase     int // 0 not connected, 1 added, 2 ready, 3 removed
+	inQuery   bool
+	inOp      bool
+	query     string
+	pid       uint64
+	cur       *plCtx
+	lastEnded *plCtx // context of the connection's previous, already ended query
+	user      string
+	host      string
+	sess      *sql.BaseSession
 }
 
 func statusInt(name string) int64 {
@@ -165,6 +166,12 @@ func checkC37a(env *kernel.Env) {
 		}
 		// kills may come from anybody at any time, for any id (live, idle, gone, never existed)
 		acts = append(acts, "kill")
+		// EndQuery is routinely called twice for one query (TrackedRowIter.Close and
+		// the handler's deferred call); the second call may arrive late, after the
+		// connection has moved on. It must be a no-op.
+		if c.lastEnded != nil && (c.phase == 1 || c.phase == 2) {
+			acts = append(acts, "stale-endquery")
+		}
 		a := acts[T.Draw(len(acts))]
 		env.Kind(a)
 		what := fmt.Sprintf("%s(c%d)", a, c.id)
@@ -195,7 +202,14 @@ func checkC37a(env *kernel.Env) {
 		case "endquery":
 			pl.EndQuery(c.cur.ctx)
 			c.cur.mustBeCan = true
+			c.lastEnded = c.cur
 			c.inQuery, c.cur, c.query, c.pid = false, nil, "", 0
+		case "stale-endquery":
+			pl.EndQuery(c.lastEnded.ctx)
+			env.Probe("stale-endquery")
+			if c.inQuery {
+				env.Probe("stale-endquery-while-next-query-runs")
+			}
 		case "progress":
 			pl.AddTableProgress(c.pid, "t", 10)
 			pl.UpdateTableProgress(c.pid, "t", 1)
